@@ -7,6 +7,7 @@ L2  CopyGraphTrace.tla: recorded executions of the real oras.CopyGraph are
 L3  CopyMon.tla: the properties themselves, judged by TLC on every state of every
     recorded execution of the real oras.Copy/CopyGraph/ExtendedCopy(Graph)."""
 import collections
+import glob
 import json
 import os
 
@@ -20,7 +21,7 @@ INVS = {
             "ReturnedRoot"},
     "C04": {"InFlightSrc", "InFlightDst", "PushOnce", "BlobFetchOnce", "CbPreOnce", "CbPostAfterPre",
             "CbMountedGrammar", "CbMountedPresent", "CbSkippedAlone", "CbSkippedPresent", "CbPostAfterSuccessors", "CbPostAfterPush",
-            "CallbackErrorReturned", "TransferredNotified", "Quiescent"},
+            "CallbackErrorReturned", "TransferredNotified", "Quiescent", "PermitReleasedOnlyIfHeld"},
 }
 MACHINERY = {"KnownNode", "DstMonotone"}   # a failure of these is a harness defect, never a verdict
 
@@ -153,12 +154,31 @@ def scen_index(outdir):
     return idx
 
 
-def drive(ctx, plans, replay=None, name="drv"):
+SEM_PANIC = "semaphore: released more than held"
+
+
+class DriverPanic(Exception):
+    """The driver process died because a goroutine of the library panicked with the limiter's complaint."""
+
+    def __init__(self, sc, outdir):
+        Exception.__init__(self, "library panic in scenario %s" % sc.get("id"))
+        self.sc, self.outdir = sc, outdir
+
+
+def drive(ctx, plans, replay=None, name="drv", sync=False):
     out = ctx.sub(name)
     env = {"VH_OUT": out, "VH_PLANS": plans, "VH_SEED": ctx.seed}
     if replay:
         env["VH_REPLAY"] = replay
-    r = go_test(ctx, "copyfam", "TestDrive", env, timeout=3000)
+    if sync:
+        env["VH_SYNC"] = "1"
+    try:
+        r = go_test(ctx, "copyfam", "TestDrive", env, timeout=3000)
+    except Infra as e:
+        cur = os.path.join(out, "current.json")
+        if ("panic: " + SEM_PANIC) in getattr(e, "out", "") and os.path.exists(cur):
+            raise DriverPanic(json.load(open(cur)), out)
+        raise
     summ = json.load(open(os.path.join(out, "summary.json")))
     log("  driver: %d executions, %d events, %d failed calls, %d hangs (%.1fs)" % (
         summ["executions"], summ["events"], summ["errors"], summ["hangs"], r["wall_s"]))
@@ -218,6 +238,54 @@ def reproduce(ctx, sc, inv, attempt=0):
     return any(v["inv"] == inv for v in viol)
 
 
+def read_ndjson_tolerant(path):
+    out = []
+    for line in open(path):
+        try:
+            out.append(json.loads(line))
+        except ValueError:
+            break       # the process died in the middle of this line
+    return out
+
+
+def panicked(ctx, sc):
+    """The library made the driver process panic with the limiter's complaint.  The scenario is replayed alone, with every
+    event flushed; when the crash reproduces, the recorded prefix plus a `panic` event is judged by CopyMon.tla."""
+    for k in range(3):
+        d = ctx.sub("panic-%d" % k)
+        p = os.path.join(d, "scen.ndjson")
+        with open(p, "w") as f:
+            f.write(json.dumps(sc) + "\n")
+        try:
+            drive(ctx, "", replay=p, name="panic-%d-out" % k, sync=True)
+        except DriverPanic as dp:
+            files = sorted(glob.glob(os.path.join(dp.outdir, "trace-*.ndjson")))
+            if not files:
+                raise Infra("the replay of the panicking scenario left no trace")
+            evs = read_ndjson_tolerant(files[-1])
+            t = evs[-1]["t"] if evs else 1
+            evs.append({"e": "panic", "what": SEM_PANIC, "t": t, "i": (evs[-1]["i"] if evs else 0) + 1})
+            with open(files[-1], "w") as f:
+                for ev in evs:
+                    f.write(json.dumps(ev) + "\n")
+            viol = monitor(ctx, "CopyMon", [files[-1]], label="L3panic")
+            mine = [v for v in viol if v["inv"] in INVS["C04"]]
+            if not any(v["inv"] == "PermitReleasedOnlyIfHeld" for v in mine):
+                raise Infra("CopyMon did not judge the panic event")
+            seen = set()
+            for v in mine:
+                if v["inv"] in seen:
+                    continue
+                seen.add(v["inv"])
+                report(ctx, "copy-scenario", v["inv"], sc, evs[-40:],
+                       what="%s failed at event %d of scenario %s (api=%s C=%s cberr=%s cancel=%s): the library panicked with %r" % (
+                           v["inv"], v["i"], sc.get("id"), sc["api"], sc["c"], sc.get("cberr"), sc.get("cancel"), SEM_PANIC))
+            return {"evaluations": 1, "distinct_nontrivial": 1, "traces_validated_against_impl": 1, "exhaustive": False,
+                    "driver_died": "the library panicked (%s); the remaining scenarios of this run were not executed" % SEM_PANIC}
+    raise Infra("the driver died with a library panic (%s) in scenario %s, which did not reproduce on 3 replays" % (
+        SEM_PANIC, sc.get("id")))
+
+
 TWIN_INVS = {
     "C01": {"TwinSuccessComplete", "TwinEdgesResolvable", "TwinRootTagged", "TwinReturnedRoot", "TwinBothReturned"},
     "C02": {"TwinClosedAtPush", "TwinPushAfterSucc", "TwinClosedFinal", "TwinNoSpuriousError", "TwinNoHang"},
@@ -266,7 +334,13 @@ def run(ctx, replay=None):
         judge(ctx, out, summ, invs, confirm=False)
         return finish(ctx, summ, None, {})
     run_l1(ctx)
-    out, summ = drive(ctx, PLANS[(pid, ctx.tier)])
+    try:
+        out, summ = drive(ctx, PLANS[(pid, ctx.tier)])
+    except DriverPanic as dp:
+        if pid != "C04":
+            raise Infra("the driver died: the library panicked with %r in scenario %s (api=%s C=%s); the limiter's "
+                        "accounting is judged by C04" % (SEM_PANIC, dp.sc.get("id"), dp.sc.get("api"), dp.sc.get("c")))
+        return panicked(ctx, dp.sc)
     judge(ctx, out, summ, invs)
     conf = run_l2(ctx, summ["files"]) if pid in ("C01", "C02", "C04") else None
     extra = {}
